@@ -1235,9 +1235,10 @@ func (m *membershipAllower) membershipAllowedSelf() error { // nolint: gocyclo
 			return nil
 		}
 
-		// A user that is not in the room is allowed to join if the room
-		// join rules are "public".
-		if m.oldMember.Membership == spec.Leave && m.joinRule.JoinRule == spec.Public {
+		// A user that is not in the room (and not banned, see above) is allowed
+		// to join if the room join rules are "public", whatever their previous
+		// membership was (leave, knock, ...).
+		if m.joinRule.JoinRule == spec.Public {
 			return nil
 		}
 
